@@ -195,7 +195,9 @@ def step (s : St) (toks : List String) : St × String :=
     | _, _ => (s, "bad-op")
   | ["SNAP"] => (s, snapStr s)
   | ["READ"] => (s, bytesToHex (readAll s.st.dir))
-  | ["PARTS"] => (s, ",".intercalate ((parts s.st.dir).map (fun p => toString p.length)))
+  | ["PARTS"] =>
+    let ps := (parts s.st.dir).map (fun p => toString p.length)
+    (s, if ps.isEmpty then "-" else ",".intercalate ps)
   | ["LINK"] => (s, s.linkText)
   | ["EXIST", sel, custom] =>
     match optText custom with
